@@ -260,7 +260,7 @@ theorem work_zero {s : State Opts Factory} (h : work s = 0) (inv : Inv P s) :
 
 /-- **No deadlock, no livelock**: from every state satisfying the protocol invariant there is a
 schedule of at most `work s` thread steps after which every request has finished. -/
-theorem can_complete (V : ValInj P) : ∀ (n : Nat) {s : State Opts Factory}, Inv P s → work s ≤ n →
+theorem can_complete : ∀ (n : Nat) {s : State Opts Factory}, Inv P s → work s ≤ n →
     ∃ sched : List Label, sched.length ≤ n ∧ ∀ th ∈ (run T s sched).threads, th.todo = [] := by
   intro n
   induction n with
@@ -271,7 +271,7 @@ theorem can_complete (V : ValInj P) : ∀ (n : Nat) {s : State Opts Factory}, In
     intro s inv hw
     by_cases hdone : ∃ th ∈ s.threads, th.todo ≠ []
     · obtain ⟨t, hlt⟩ := progress (T := T) inv hdone
-      have inv' : Inv P (step T s (.thr t)) := Inv_step V inv (.thr t)
+      have inv' : Inv P (step T s (.thr t)) := Inv_step inv (.thr t) trivial
       obtain ⟨sched, hlen, hfin⟩ := ih inv' (by show work (stepThread T s t) ≤ n; omega)
       exact ⟨.thr t :: sched, by simp; omega, hfin⟩
     · refine ⟨[], Nat.zero_le _, ?_⟩
